@@ -18,3 +18,4 @@ INVARIANT C20_NoPartial
 PROPERTY C09_RepopRule
 INVARIANT C20_NoLeak
 PROPERTY Terminates
+PROPERTY RefinesCore
